@@ -278,9 +278,34 @@ def h_concrete_wide_spectrum(ctx):
     ctx.claim('rank_not_above_smallest_admissible', bool(ok_rank))
 
 
+def h_concrete_add_many_numbers(ctx):
+    """add_many on lists that mix TT-tensors and plain numbers, with and without a
+    binding cap (real code: rounding of a sum with a constant part is not
+    encodable): rank cap, shape, accumulated error budget."""
+    ok_rank, ok_err = True, True
+    Y = teneva.rand([4, 3, 4], 2, seed=1)
+    Z = teneva.rand([4, 3, 4], 1, seed=2)
+    C = teneva.const([4, 3, 4], 1.5)
+    for lst, dense in [([Y, 2.5, Z], teneva.full(Y) + 2.5 + teneva.full(Z)), ([3., Y], 3. + teneva.full(Y)),
+                       ([Y, C, -1.5], teneva.full(Y)), ([Y, 1, 2, Z, -3], teneva.full(Y) + teneva.full(Z))]:
+        for cap in (1, 2, 3, 10 ** 6):
+            for tf in (1, 2, 15):
+                R = teneva.add_many(lst, e=1e-8, r=cap, trunc_freq=tf)
+                ranks = [G.shape[2] for G in R[:-1]]
+                ok_rank = ok_rank and all(q <= max(1, cap) for q in ranks) and [G.shape[1] for G in R] == [4, 3, 4]
+                if cap == 10 ** 6:
+                    ok_err = ok_err and np.linalg.norm(teneva.full(R) - dense) <= 1e-6 * max(1., np.linalg.norm(dense))
+                    # no rank above the exact TT-ranks of the total
+                    T = teneva.truncate(teneva.svd(dense, 1e-12), 1e-8)
+                    ok_rank = ok_rank and all(a <= b for a, b in zip(ranks, [G.shape[2] for G in T[:-1]]))
+    ctx.claim('rank_cap_and_shape', bool(ok_rank))
+    ctx.claim('sum_within_budget', bool(ok_err))
+
+
 def instances(tier):
     out = []
     quick = tier == 'quick'
+    out.append({'func': 'h_concrete_add_many_numbers', 'params': {}, 'opts': {'concrete_only': True}})
     out.append({'func': 'h_concrete_wide_spectrum', 'params': {}, 'opts': {'concrete_only': True}})
     for tf, cap in [(2, 1), (1, 1), (2, 2)]:
         out.append({'func': 'h_add_many_cancel', 'params': {'trunc_freq': tf, 'cap': cap}})
